@@ -694,6 +694,20 @@ pub fn run_program(prog: Program, opts: &Opts, plan: noise::Plan) -> RunResult {
                 let had_busy = ctx.prog.ops.iter().enumerate().any(|(i, d)| d.kind == Kind::TrySync && ctx.recs[i].outcome.load(ORD) == 2);
                 let prop = if had_busy && last.contains("State: Running") { "C09" } else { "C03" };
                 ctx.sink.report(prop, "not_idle_at_quiescence", format!("not_idle:{}", state_words(&last)), format!("every operation has completed and all threads are quiet, but: {}", last));
+                // Every caller thread has finished, so every owner of the mortal object that the program had is gone; all its operations
+                // have completed and everything is quiet: if the value is still alive, something else is keeping it (a pipe_in may only
+                // hold a weak reference) or its destruction is stuck
+                if let Some(m) = ctx.prog.mortal {
+                    let dropped_stream = ctx.prog.pipes.iter().enumerate().any(|(p, pd)| pd.obj == m && pd.through && ctx.pipes[p].stream_dropped.load(ORD) == 0);
+                    if ctx.objs[m].drops.load(ORD) == 0 && !dropped_stream && !(ctx.prog.panics && oracle::object_panicked(&ctx, m)) && ctx.mortal_job_owner.lock().unwrap().is_none() {
+                        let pipe_in = ctx.prog.pipes.iter().enumerate().any(|(p, pd)| pd.obj == m && !pd.through && ctx.pipes[p].created.load(ORD) != 0);
+                        for prop in if pipe_in { vec!["C11", "C05"] } else { vec!["C05"] } {
+                            ctx.sink.report(prop, "value_still_alive_after_every_owner_is_gone", format!("kept_alive:{}", if pipe_in { "pipe_in" } else { "no_pipe" }),
+                                format!("object {}: every owner the program had is gone, all its operations have completed and all threads are quiet, but the protected value has not been destroyed{}", m,
+                                    if pipe_in { " (a pipe_in exists on it: it may hold only a weak reference)" } else { "" }));
+                        }
+                    }
+                }
             }
             Wait::TimedOut => outcome = Outcome::Inconclusive("watchdog while settling".into()),
         }
@@ -1094,6 +1108,12 @@ fn diagnose(ctx: &Arc<RunCtx>, objects: &[Option<Arc<Obj>>], snap: &[quiesce::Th
         let rec = &ctx.recs[head];
         let st = state_of(&states, obj);
         let started = rec.start.load(ORD) != 0;
+        // "A Busy outcome leaves the object undisturbed, so every operation already queued or scheduled later still completes"
+        if had_busy(obj) && !(ctx.prog.hold_phase && prog.held_objs.contains(&obj) && !ctx.holds.iter().all(|h| h.is_open())) {
+            found.push(("C09", "operation_incomplete_after_busy_try_sync".into(), format!("incomplete_after_busy:{}:{}:{}", def.kind.name(), st, pool_cond(ctx)),
+                format!("object {} answered Busy to a try_sync in this run; all threads are quiet and {} accepted operation(s) of it never completed (first: op {}, {}, {}); queue state {}",
+                    obj, inc.len(), head, def.kind.name(), if started { "started" } else { "never started" }, st)));
+        }
         if ctx.prog.hold_phase && prog.held_objs.contains(&obj) && !ctx.holds.iter().all(|h| h.is_open()) { continue; }
         if started && rec.pendings.load(ORD) > 0 && gates_fired(head) && matches!(def.kind, Kind::FutDesync | Kind::After | Kind::PipeItem | Kind::FutSync) {
             let prop = match def.kind { Kind::FutSync => "C08", _ => "C06" };
